@@ -549,6 +549,30 @@ class C10(SeqCheck):
         return any(x.split()[1:2] == ["1"] for x in o) and any(x.split()[1:2] == ["0"] for x in o)
 
 
+class C01(SeqCheck):
+    pid = "C01"
+    diff_is_violation = True
+    harness = "c01"
+    hbin = "h_c01"
+    test_binary = True
+    model_entry = "net_model"
+    oracle_entry = None
+    quick_n = 1200
+    thorough_n = 40000
+    shards = 12
+    design_ref = "4 (C01)"
+    technique = "Coq proof (TODO) + differential correspondence check of the public vnet API in synctest bubbles"
+    level_text = "TODO"
+    level_note = "TODO"
+    rule = "TODO"
+    trusted = ["testing/synctest (quiescence after each operation, virtual clock for NAT lifetimes)"]
+    assumptions = ["IPv4/UDP"]
+
+    def is_nontrivial(self, conf, ops, obs):
+        o = segs(obs)
+        return sum(1 for x in o if x.startswith("1 ")) >= 3
+
+
 class C13(SeqCheck):
     pid = "C13"
     diff_is_violation = True
@@ -694,6 +718,6 @@ class C16(SeqCheck):
         return any(x.startswith("1") for x in o) and any(x.startswith("0") for x in o)
 
 
-REGISTRY = {"C02": C02, "C03": C03, "C04": C04, "C05": C05, "C06": C06, "C07": C07, "C08": C08, "C09": C09, "C10": C10, "C11": C11, "C12": C12, "C13": C13, "C14": C14, "C15": C15, "C16": C16, "C17": C17, "C18": C18, "C20": C20}
+REGISTRY = {"C01": C01, "C02": C02, "C03": C03, "C04": C04, "C05": C05, "C06": C06, "C07": C07, "C08": C08, "C09": C09, "C10": C10, "C11": C11, "C12": C12, "C13": C13, "C14": C14, "C15": C15, "C16": C16, "C17": C17, "C18": C18, "C20": C20}
 
 NOT_CLAIMED = {}
